@@ -691,6 +691,224 @@ def check_plans(specs: List[Dict[str, Any]], rep_prefix: str, run_accepted: int 
     return out
 
 
+# ------------------------------------------------------------------------------------------------------------
+# defect domains decided in Coq (Model/PlannerL.v kf_code on the MODEL'S plan) vs harness/c05.kf_domain
+# ------------------------------------------------------------------------------------------------------------
+KF_NAME = {0: None, 1: "C05-right-join-not-honoured", 2: "C05-different-key-names-consumer-on-right-framework",
+           3: "C05-left-join-roles-flipped-for-right-consumer", 4: "C05-multiway-join-across-frameworks",
+           5: "rejected-at-prepare", 6: "outside-model"}
+PLANNER_DOMAINS = {KF_NAME[i] for i in (1, 2, 3, 4)}
+
+
+def classify(specs: List[Dict[str, Any]], rep_prefix: str = "PlannerL_kf") -> List[Optional[str]]:
+    """Per request the defect domain decided IN COQ: the model (prepare_L under the observed orders) is evaluated on the
+    request's feature graph and Links and kf_code inspects the model's plan (which table is LEFT in each JoinStep, join type,
+    key names, transform steps).  None = no planner domain; 'unobserved' = the request could not be observed."""
+    logging.disable(logging.CRITICAL)
+    obs = observe_all(specs)
+    idx = [i for i, o in enumerate(obs) if "error" not in o and o.get("g") is not None]
+    out: List[Optional[str]] = ["unobserved"] * len(specs)
+    if not idx:
+        return out
+    terms = [cq_case(obs[i]) for i in idx]
+    codes = coq_values(rep_prefix, "classify", "classify_case", terms)
+    for i, c in zip(idx, codes):
+        out[i] = KF_NAME.get(c, f"code{c}")
+    return out
+
+
+def coq_values(rep_prefix: str, name: str, fn: str, terms: List[str], shard: int = 40) -> List[int]:
+    """evaluate fn : lcase -> nat on every term inside Coq"""
+    res: List[int] = []
+    import re
+    for k in range(0, len(terms), shard):
+        body = ("Definition cases : list lcase := [\n" + ";\n".join(terms[k:k + shard]) + "\n].\n"
+                f"Eval vm_compute in (map {fn} cases).")
+        out = vlib.coq_eval(rep_prefix, f"{name}_{k}", REQ, body)
+        m = re.search(r"=\s*\[(.*?)\]\s*:\s*list nat", out, re.S)
+        if not m:
+            raise RuntimeError(f"cannot parse coqc output: {out[-500:]}")
+        res += [int(t) for t in re.findall(r"\d+", m.group(1))]
+    if len(res) != len(terms):
+        raise RuntimeError("classification count mismatch")
+    return res
+
+
+def compare_kf(n: int, seed: int) -> int:
+    """>= n generated C05 requests: the Coq-decided planner domain against harness/c05.kf_domain (Python, on the request)."""
+    from harness import c05
+    rng = random.Random(seed)
+    groups = c05.build_specs(rng, big=False)
+    specs = [s for k in ("base", "multikey", "orient", "trees", "stars") for s in groups[k]]
+    rng.shuffle(specs)
+    specs = [s for s in specs if in_fragment(s)][:max(n, 300)]
+    coq = classify(specs)
+    dis = 0
+    counts: Dict[str, int] = {}
+    for s, c in zip(specs, coq):
+        py = c05.kf_domain(s)
+        py_planner = py if py in PLANNER_DOMAINS else None
+        counts[str((py, c))] = counts.get(str((py, c)), 0) + 1
+        if c in ("unobserved",):
+            continue
+        c_planner = c if c in PLANNER_DOMAINS else None
+        if py_planner == c_planner:
+            continue
+        # kf_domain returns the FIRST matching domain in its own priority order: a data / engine domain may hide a planner domain
+        if py is not None and py not in PLANNER_DOMAINS and c_planner is not None:
+            why = "python reports an engine / data domain first; the planner domain found in Coq also applies"
+        elif c == "rejected-at-prepare" or c == "outside-model":
+            why = "the model rejects / leaves its fragment; python decides on the request alone"
+        else:
+            why = "DIFFERENT planner domains"
+        dis += 1
+        print("KF-DISAGREEMENT", "python:", py, "coq:", c, "-", why, json.dumps({"links": s["links"], "cfw": [g.get("cfw") for g in s["groups"]]}))
+    print("compared", len(specs), "disagreements", dis)
+    for k in sorted(counts):
+        print("  ", counts[k], k)
+    return dis
+
+
+# ------------------------------------------------------------------------------------------------------------
+# the run-time registry model (Model/PlannerLRun.v rt_get_cfw / rt_leftmost) against the real CfwManager
+# ------------------------------------------------------------------------------------------------------------
+MERGE_EXTRA = """
+Definition msim (objs : list robj) (ms : list (nat * nat)) : hist :=
+  fold_left (fun h m => match rt_get_cfw objs h (fst m), rt_get_cfw objs h (snd m) with
+                        | Some c, Some fr => h ++ [(fr, c)]
+                        | _, _ => h end) ms [].
+Definition chk_merge (c : list robj * list (nat * nat) * list (nat * nat)) : bool :=
+  match c with (objs, ms, qs) =>
+    let h := msim objs ms in
+    forallb (fun q => match rt_get_cfw objs h (fst q) with Some x => Nat.eqb x (snd q) | None => false end) qs
+  end.
+"""
+
+
+def check_merge_model(n: int, seed: int, rep_prefix: str = "PlannerL") -> List[Dict[str, Any]]:
+    """n random merge sequences: objects registered with overlapping children_if_root sets, JoinStep-style merges between the
+    objects two uuids resolve to (CfwManager.get_cfw_uuid + add_to_merge_relation), then every uuid is looked up; the model
+    replays the merge history (rt_leftmost) and must find the same objects."""
+    import uuid as _uuid
+    from mloda.core.core.cfw_manager import CfwManager
+    from mloda.user import ParallelizationMode
+    rng = random.Random(seed * 7919 + 3)
+    terms, raw = [], []
+    for _ in range(n):
+        k = rng.randrange(2, 7)
+        ids = [_uuid.uuid4() for _ in range(k)]
+        feats = [_uuid.uuid4() for _ in range(k + rng.randrange(0, 4))]
+        num = {u: i for i, u in enumerate(ids)}
+        fnum = {u: 50 + i for i, u in enumerate(feats)}
+        mgr = CfwManager({ParallelizationMode.SYNC})
+        objs = []
+        for j, oid in enumerate(ids):
+            cir = {feats[j]} | set(rng.sample(feats, rng.randrange(0, min(3, len(feats)) + 1)))
+            mgr.add_cfw_to_compute_frameworks(oid, "Cls", cir)
+            objs.append((num[oid], sorted(fnum[u] for u in cir)))
+        ms = []
+        for _m in range(rng.randrange(1, 2 * k)):
+            a, b = rng.choice(feats), rng.choice(feats)
+            ca, cb = mgr.get_cfw_uuid("Cls", a), mgr.get_cfw_uuid("Cls", b)
+            if ca is None or cb is None:
+                continue
+            mgr.add_to_merge_relation(ca, cb, "Cls")
+            ms.append((fnum[a], fnum[b]))
+        qs = [(fnum[u], num[mgr.get_cfw_uuid("Cls", u)]) for u in feats if mgr.get_cfw_uuid("Cls", u) is not None]
+        raw.append({"objs": objs, "merges": ms, "queries": qs})
+        terms.append("(" + cq_list(f"{{| ro_id := {cq_nat(i)}; ro_cir := {_nl(c)} |}}" for i, c in objs) + ", "
+                     + cq_list(f"({cq_nat(a)}, {cq_nat(b)})" for a, b in ms) + ", "
+                     + cq_list(f"({cq_nat(a)}, {cq_nat(b)})" for a, b in qs) + ")")
+    bad, _ = vlib.run_cases(rep_prefix, "planL_merge", REQ + ["MV.Model.PlannerLRun"], "chk_merge", terms,
+                            extra_defs=MERGE_EXTRA, case_type="list robj * list (nat * nat) * list (nat * nat)", shard=100)
+    return [{"stage": "merge_model", "what": "CfwManager.get_cfw_uuid after a merge sequence differs from rt_get_cfw", "spec": raw[k]} for k in bad]
+
+
+# ------------------------------------------------------------------------------------------------------------
+# end to end: the rows the consumer receives = the model's plan run by the run-time model with rel_join (one framework)
+# ------------------------------------------------------------------------------------------------------------
+ROWS_EXTRA = """
+Definition table := PlannerLRun.table.
+Definition first_lookup (p : list lstep) : option nat :=
+  match flat_map (fun x => match x with LFG _ _ _ _ (t :: _) _ => [t] | _ => [] end) p with t :: _ => Some t | [] => None end.
+Definition model_rows (lc : lcase) (s0 : store) : option table :=
+  match result_of lc with
+  | LPlanned p =>
+    match rt_run (objs_of_plan p) (joins_of_plan (ord_obs (lc_tab lc)) (lc_links lc) p) s0, first_lookup p with
+    | Some st, Some t => rt_read (objs_of_plan p) st t
+    | _, _ => None
+    end
+  | _ => None
+  end.
+Definition chk_rows (c : lcase * store * table) : bool :=
+  match c with (lc, s0, obs) => match model_rows lc s0 with Some t => MV.Spec.Rel.bag_eqb t obs | None => false end end.
+"""
+
+
+def gen_rows_spec(rng: random.Random, cfw: str = "PyArrowTable") -> Dict[str, Any]:
+    """3-4 roots on one framework with DIFFERENT key sets (so that the join order matters for mixed join types), a tree of
+    INNER / LEFT / OUTER links on k, one consumer feature over all roots"""
+    n = rng.randrange(2, 5)
+    roots = []
+    for i in range(n):
+        ks = sorted(rng.sample(range(1, 6), rng.randrange(1, 5)))
+        roots.append({"name": f"R{i}", "kind": "root", "cfw": cfw, "cols": {f"v{i}": [10 * (i + 1) + k for k in ks], "k": ks}})
+    links = []
+    for i in range(1, n):
+        a = rng.randrange(0, i)
+        l, r = (a, i) if rng.random() < 0.6 else (i, a)
+        links.append({"jt": rng.choice(["INNER", "LEFT", "OUTER"]), "l": f"R{l}", "r": f"R{r}", "li": ["k"], "ri": ["k"]})
+    ins = [f"v{i}" for i in range(n)]
+    rng.shuffle(ins)
+    return {"groups": roots + [{"name": "D1", "kind": "derived", "cfw": cfw, "features": {"f1": _feat(ins)}}], "request": ["f1"], "links": links}
+
+
+def check_rows(specs: List[Dict[str, Any]], rep_prefix: str = "PlannerL") -> List[Dict[str, Any]]:
+    """For accepted one-framework requests: run the real plan in SYNC, record the rows handed to the consumer's calculation and
+    compare them in Coq with model_rows: the MODEL's plan (under the observed orders) executed by the run-time model with
+    rel_join.  Requests whose run raises (an empty intermediate result on some engines) are skipped and counted."""
+    from harness.universe import Universe
+    from harness.c05 import Cap, cq_table, rows_of
+    from harness.orch import run_observed, install
+    install()
+    out: List[Dict[str, Any]] = []
+    terms, idx = [], []
+    skipped = 0
+    for i, spec in enumerate(specs):
+        o = observe(spec)
+        if "error" in o or o.get("g") is None or o["outcome"] != 0:
+            skipped += 1
+            continue
+        cap = Cap()
+        uni = Universe(spec, cap)
+        try:
+            try:
+                sess = uni.prepare()
+            except Exception:  # noqa: BLE001
+                skipped += 1
+                continue
+            # the orders of THIS preparation (link uuids are fresh): observe again through the capture of this prepare
+            o = _canon(spec, Tables(spec), uni, __import__("harness.planner_a", fromlist=["CAP"]).CAP.get("engine"), 0, None)
+            r = run_observed(sess, timeout=20)
+        finally:
+            uni.dispose()
+        if r["status"] != "ok" or cap.rows.get("D1") is None:
+            skipped += 1
+            continue
+        t = Tables(spec)
+        store = cq_list(f"({cq_nat(2 * t.name_idx[v])}, {cq_table(rows_of(g['cols']))})"
+                        for g in spec["groups"] if g["kind"] == "root" for v in g["cols"] if v != "k")
+        terms.append(f"({cq_case(o)}, {store}, {cq_table(cap.rows['D1'])})")
+        idx.append(i)
+    if terms:
+        bad, _ = vlib.run_cases(rep_prefix, "planL_rows", REQ + ["MV.Model.PlannerLRun", "MV.Spec.Rel"], "chk_rows", terms, extra_defs=ROWS_EXTRA,
+                                case_type="lcase * store * table", shard=30)
+        for k in bad:
+            out.append({"spec": specs[idx[k]], "stage": "rows", "what": "the rows the consumer received are not the model's plan run with rel_join"})
+    LAST_INFO["rows"] = {"compared": len(terms), "skipped": skipped, "disagreements": len(out)}
+    return out
+
+
 def self_test_specs(n: int, seed: int) -> List[Dict[str, Any]]:
     rng = random.Random(seed)
     specs = all_two_root_specs() + [spec_diamond_consumer(), spec_intermediate_consumer()]
@@ -712,14 +930,30 @@ def main(argv: List[str]) -> int:
         specs = json.loads(open(argv[2]).read())
         open(argv[3], "w").write(json.dumps(observe_all(specs)))
         return 0
+    if len(argv) > 1 and argv[1] == "--kf":
+        vlib.ensure_makefile()
+        ok, log = vlib.make_targets(["Model/PlannerL.vo"])
+        if not ok:
+            print(log[-3000:])
+            return 1
+        compare_kf(int(argv[2]) if len(argv) > 2 else 300, int(argv[3]) if len(argv) > 3 else 0)
+        return 0
     n = int(argv[1]) if len(argv) > 1 else 80
     seed = int(argv[2]) if len(argv) > 2 else 0
     specs = self_test_specs(n, seed)
-    ok, log = vlib.make_targets(["Model/PlannerL.vo"])
-    if not ok:
-        print(log[-3000:])
+    pr = vlib.build_props("PlannerL")
+    print("Props/PlannerL.v:", "ok" if pr.ok else "BROKEN", f"{pr.discharged}/{pr.obligations} statements,", sorted(set(pr.assumptions)))
+    if not pr.ok:
+        print(pr.log[-3000:])
         return 1
     dis = check_plans(specs, "PlannerL", run_accepted=0, hash_seeds=(1, 2))
+    dm = check_merge_model(200, seed)
+    print("merge model vs CfwManager: 200 sequences,", len(dm), "disagreements")
+    dis += dm
+    rng = random.Random(seed + 17)
+    dr = check_rows([gen_rows_spec(rng, CF[i % 2]) for i in range(40)])
+    print("rows received by the consumer vs the model's plan run with rel_join:", LAST_INFO.get("rows"))
+    dis += dr
     print({k: v for k, v in LAST_INFO.items() if k != "per_seed"})
     for k, v in LAST_INFO["per_seed"].items():
         print(k, {a: b for a, b in v.items() if a != "coq"})
